@@ -3,7 +3,7 @@
    every marker obtained from atoms, the universal and the empty marker through &, |, MultiMarker.of, MarkerUnion.of
    (what parse_marker folds with), only() and exclude() / without_extras() - with any fuel, set order and merge oracle
    that returns atoms - is well shaped at EVERY depth: the children of each conjunction / disjunction are pairwise
-   distinct and none of them is a compound of the same kind (C15_wf_multi / C15_wf_union unfold the predicate).
+   distinct and none of them is a compound of the same kind (C15_shaped_multi / C15_shaped_union unfold the predicate).
    PROVED FOR of() (partial) — the shape of what MultiMarker.of / MarkerUnion.of return.
    For every fuel, set order, merge oracle and every list of markers, the result of
    multi_of / union_of (Model/Marker.v: the of() loops with their fixpoint iteration) is
@@ -119,34 +119,34 @@ Section C15shape.
   Hypothesis vmerge_leaf : forall k a b r, vmerge k a b = Some r -> is_multi r = false /\ is_union r = false.
   Hypothesis perm_perm : forall l, Permutation (perm l) l.
 
-  Theorem C15_and fuel a b r : mand vmerge vcontains perm fuel a b = Ret r -> wf a = true -> wf b = true -> wf r = true.
-  Proof. exact (mand_wf vmerge vcontains perm vmerge_leaf perm_perm fuel a b r). Qed.
-  Theorem C15_or fuel a b r : mor vmerge vcontains perm fuel a b = Ret r -> wf a = true -> wf b = true -> wf r = true.
-  Proof. exact (mor_wf vmerge vcontains perm vmerge_leaf perm_perm fuel a b r). Qed.
-  Theorem C15_multi_of_wf fuel l r : multi_of vmerge vcontains perm fuel l = Ret r -> forallb wf l = true -> wf r = true.
-  Proof. exact (multi_of_wf vmerge vcontains perm vmerge_leaf perm_perm fuel l r). Qed.
-  Theorem C15_union_of_wf fuel l r : union_of vmerge vcontains perm fuel l = Ret r -> forallb wf l = true -> wf r = true.
-  Proof. exact (union_of_wf vmerge vcontains perm vmerge_leaf perm_perm fuel l r). Qed.
+  Theorem C15_and fuel a b r : mand vmerge vcontains perm fuel a b = Ret r -> shaped a = true -> shaped b = true -> shaped r = true.
+  Proof. exact (mand_shaped vmerge vcontains perm vmerge_leaf perm_perm fuel a b r). Qed.
+  Theorem C15_or fuel a b r : mor vmerge vcontains perm fuel a b = Ret r -> shaped a = true -> shaped b = true -> shaped r = true.
+  Proof. exact (mor_shaped vmerge vcontains perm vmerge_leaf perm_perm fuel a b r). Qed.
+  Theorem C15_multi_of_shaped fuel l r : multi_of vmerge vcontains perm fuel l = Ret r -> forallb shaped l = true -> shaped r = true.
+  Proof. exact (multi_of_shaped vmerge vcontains perm vmerge_leaf perm_perm fuel l r). Qed.
+  Theorem C15_union_of_shaped fuel l r : union_of vmerge vcontains perm fuel l = Ret r -> forallb shaped l = true -> shaped r = true.
+  Proof. exact (union_of_shaped vmerge vcontains perm vmerge_leaf perm_perm fuel l r). Qed.
   (* only() / exclude() rebuild the marker from its atoms: the result is well shaped whatever the input *)
-  Theorem C15_only names fuel m r : monly vmerge vcontains perm fuel names m = Ret r -> wf r = true.
-  Proof. exact (monly_wf vmerge vcontains perm vmerge_leaf perm_perm names fuel m r). Qed.
-  Theorem C15_exclude name fuel m r : mexclude vmerge vcontains perm fuel name m = Ret r -> wf r = true.
-  Proof. exact (mexclude_wf vmerge vcontains perm vmerge_leaf perm_perm name fuel m r). Qed.
-  Theorem C15_reachable m : reachable vmerge vcontains perm m -> wf m = true.
-  Proof. exact (reachable_wf vmerge vcontains perm vmerge_leaf perm_perm m). Qed.
+  Theorem C15_only names fuel m r : monly vmerge vcontains perm fuel names m = Ret r -> shaped r = true.
+  Proof. exact (monly_shaped vmerge vcontains perm vmerge_leaf perm_perm names fuel m r). Qed.
+  Theorem C15_exclude name fuel m r : mexclude vmerge vcontains perm fuel name m = Ret r -> shaped r = true.
+  Proof. exact (mexclude_shaped vmerge vcontains perm vmerge_leaf perm_perm name fuel m r). Qed.
+  Theorem C15_reachable m : reachable vmerge vcontains perm m -> shaped m = true.
+  Proof. exact (reachable_shaped vmerge vcontains perm vmerge_leaf perm_perm m). Qed.
 End C15shape.
 
-Theorem C15_wf_multi l : wf (MMulti l) = true -> dist l /\ forallb (fun x => negb (is_multi x)) l = true /\ forallb wf l = true.
-Proof. exact (wf_multi l). Qed.
-Theorem C15_wf_union l : wf (MUnion l) = true -> dist l /\ forallb (fun x => negb (is_union x)) l = true /\ forallb wf l = true.
-Proof. exact (wf_union l). Qed.
+Theorem C15_shaped_multi l : shaped (MMulti l) = true -> dist l /\ forallb (fun x => negb (is_multi x)) l = true /\ forallb shaped l = true.
+Proof. exact (shaped_multi l). Qed.
+Theorem C15_shaped_union l : shaped (MUnion l) = true -> dist l /\ forallb (fun x => negb (is_union x)) l = true /\ forallb shaped l = true.
+Proof. exact (shaped_union l). Qed.
 
-(* non-vacuity: a reachable nested compound, and an ill-shaped marker that wf rejects *)
+(* non-vacuity: a reachable nested compound, and an ill-shaped marker that shaped rejects *)
 Example C15_reachable_example :
-  exists r, mor no_vm (fun _ _ => false) (fun l => l) 30 (MMulti [aP; aO]) aN = Ret r /\ is_single r = false /\ wf r = true.
+  exists r, mor no_vm (fun _ _ => false) (fun l => l) 30 (MMulti [aP; aO]) aN = Ret r /\ is_single r = false /\ shaped r = true.
 Proof. eexists. split; [vm_compute; reflexivity|]. split; vm_compute; reflexivity. Qed.
-Example C15_wf_rejects : wf (MMulti [aP; MMulti [aO; aN]]) = false /\ wf (MUnion [aP; aP]) = false.
+Example C15_shaped_rejects : shaped (MMulti [aP; MMulti [aO; aN]]) = false /\ shaped (MUnion [aP; aP]) = false.
 Proof. split; vm_compute; reflexivity. Qed.
 
-Definition C15_all := (C15_multi_of, C15_union_of, of_body_shape, C15_one_child_refuted, C15_and, C15_or, C15_multi_of_wf, C15_union_of_wf, C15_only, C15_exclude, C15_reachable, C15_wf_multi, C15_wf_union).
+Definition C15_all := (C15_multi_of, C15_union_of, of_body_shape, C15_one_child_refuted, C15_and, C15_or, C15_multi_of_shaped, C15_union_of_shaped, C15_only, C15_exclude, C15_reachable, C15_shaped_multi, C15_shaped_union).
 Redirect "C15.assumptions" Print Assumptions C15_all.
